@@ -45,6 +45,21 @@ impl RegistryCore {
         let mut desc_id_set = HashSet::new();
         let mut collector_id: u64 = 0;
 
+        // A label of the collector must not collide with a common label of
+        // the registry, otherwise gathered samples carry that name twice.
+        if let Some(ref hmap) = self.labels {
+            for desc in c.desc() {
+                let const_names = desc.const_label_pairs.iter().map(|lp| lp.name());
+                let variable_names = desc.variable_labels.iter().map(|n| n.as_str());
+                if let Some(name) = const_names.chain(variable_names).find(|n| hmap.contains_key(*n)) {
+                    return Err(Error::Msg(format!(
+                        "label name {} of {:?} collides with a common label of the registry",
+                        name, desc.fq_name
+                    )));
+                }
+            }
+        }
+
         for desc in c.desc() {
             // Is the desc_id unique?
             // (In other words: Is the fqName + constLabel combination unique?)
